@@ -161,6 +161,10 @@ def run_shard(shard, ctx):
         for a, b in itertools.product(SEQS, SEQS):
             for which in (1, 2, 12):
                 run_case({"kind": "competing", "active_seq": a, "stale_seq": b, "which": which}, ctx)
+        # the newest copy of a key table holds only a Free entry (its keys were deleted), an older copy still has them
+        for seq_new, seq_old in ((9, 3), (2, 1), (65535, 0)):
+            for pos in ([0], [99]):
+                run_case({"kind": "emptied", "seqs": [seq_new, seq_old], "pos": pos}, ctx)
         # three copies of one key table: the newest may come first, in the middle or last in the object table
         for seqs in itertools.permutations((5, 7, 9)):
             for seqs2 in ((1, 2, 3), (3, 1, 2)):
@@ -285,6 +289,16 @@ def run_case(case, ctx):
             tree_expected = _merge_expected(tree, stale_tree, which, 2)
         nontrivial = True
         ctx.outcome("competing")
+    elif kind == "emptied":
+        leaves = {f"k{i}": (LEAF_CYCLE[i % 6], VALUES[LEAF_CYCLE[i % 6]][0]) for i in range(6)}
+        tree = {"configuration": (B.T_NODE, leaves)}
+        # entries in preorder: the node, then k0..k5; the node and k1, k3, k5 live in table 1, k0, k2, k4 in table 2
+        placement = [1, 2, 1, 2, 1, 2, 1]
+        kw = dict(ntables=2, placement=placement, table_seq=case["seqs"][0], free_only_tables=(2,),
+                  stale={2: [(case["seqs"][1], tree)]}, stale_positions=case["pos"])
+        tree_expected = {"configuration": (B.T_NODE, {k: v for i, (k, v) in enumerate(leaves.items()) if i % 2 == 1})}
+        nontrivial = True
+        ctx.outcome("competing")
     elif kind == "competing3":
         tree = tree_from_shape(forests(5)[20], 2)
         gen = [tree, _revalue(tree), _revalue(_revalue(_revalue(tree)))]  # three generations with pairwise different values
@@ -355,7 +369,7 @@ def run_case(case, ctx):
     expected = B.plain(tree)
     if kind == "competing" and case["active_seq"] < case["stale_seq"]:
         expected = B.plain(tree_expected)
-    if kind == "competing3":
+    if kind in ("competing3", "emptied"):
         expected = B.plain(tree_expected)
     if kind == "headers":
         a, b = case["seqs"]
